@@ -692,11 +692,11 @@ def evaluate_all(ctx, schemas, cases, refs):
 def run(ctx):
     rng = ctx.rng
     th = ctx.thorough
-    schemas = [msggen.matrix_schema()] + [msggen.random_schema(rng) for _ in range(5 if not th else 16)]
+    schemas = [msggen.matrix_schema()] + [msggen.random_schema(rng) for _ in range(5 if not th else 30)]
     prelude = "\n".join(f"Definition sc{i} : schema := {s.coq()}." for i, s in enumerate(schemas))
-    budget = 120 if not th else 400
-    n_msgs = (36, 9) if not th else (220, 40)
-    cap_corr = 2600 if not th else 16000
+    budget = 120 if not th else 500
+    n_msgs = (36, 9) if not th else (400, 60)
+    cap_corr = 2600 if not th else 40000
 
     cases = []          # (si, ci, fault, bytes, expectation)
     # ---- corpus first
